@@ -139,6 +139,9 @@ def features(case):
         if any(s["id"] not in used for s in w["steps"]):
             f.add("dangling-step")
         for s in w["steps"]:
+            if s.get("when") and "wf" in s["run"] and any(
+                    all(not l["src"] for l in st["in"]) for st in s["run"]["wf"]["steps"]):
+                f.add("conditional-subworkflow-independent-step")
             if s["scatter"] and "wf" in s["run"]:
                 sub = s["run"]["wf"]
                 # an output of the subworkflow fed (also) directly by one of its inputs
@@ -169,6 +172,8 @@ def diagnose(c, o, clause):
         e = errclass(o["sf"].get("why", ""))
         if e == "static-checker-incompatible" and "single-source-list-linkmerge" in fs:
             return "static-checker-single-source-list"
+        if e == "no-suitable-token-processor" and "single-source-list-linkmerge" in fs:
+            return "single-array-source-linkmerge-unwrapped"
         if e in ("token-not-optional", "invalid-value-none") and "all-non-null" in fs:
             return "all-non-null-single-source-with-null"
         for cls in ("scattered-subworkflow-independent-step", "scattered-subworkflow-passthrough"):
@@ -178,6 +183,8 @@ def diagnose(c, o, clause):
             return "empty-nested-crossproduct"
         if e in ("no-suitable-token-processor", "array-expected") and "merge-flattened" in fs:
             return "merge-flattened-deep"
+        if "dup-source" in fs and e in ("invalid-value-none", "token-not-optional", "array-expected"):
+            return "dup-source-dropped"
         if e in ("failed-workflow-execution", "other") and "dangling-step" in fs:
             return "dangling-step-cancelled"
         return "plain/" + e
@@ -187,6 +194,8 @@ def diagnose(c, o, clause):
             return "scattered-subworkflow-passthrough"
         if "scattered-subworkflow-independent-step" in fs and d in ("elements-missing", "same-elements-different-nesting"):
             return "scattered-subworkflow-independent-step"
+        if "conditional-subworkflow-independent-step" in fs and d in ("value-differs", "elements-differ"):
+            return "conditional-subworkflow-independent-step"
         if "dup-source" in fs and d in ("elements-missing", "value-differs", "elements-differ"):
             return "dup-source-dropped"
         if "nested-crossproduct" in fs and d == "same-elements-different-nesting":
@@ -341,6 +350,8 @@ class C29(Prop):
         import streamflow.cwl.workflow  # noqa: F401
         import streamflow.main  # noqa: F401
         import streamflow.workflow.token  # noqa: F401
+        import streamflow.cwl.runner  # noqa: F401
+        import cwltool.main  # noqa: F401
         self._ops_init()
 
     def _ops_init(self):
@@ -426,10 +437,60 @@ class C29(Prop):
     def _run_prog(self, case):
         """Both runners on one program.  A disagreement (or a crash-like failure of either runner) must be
         reproducible: it is re-run once, sequentially, and the second observation is the one reported."""
-        obs = self._run_once(case, parallel=True)
-        if self.oracle(case, obs) is None and "fail" not in obs["ref"] and "fail" not in obs["sf"]:
+        # first attempt in-process (the same entry functions, no interpreter start / imports: cheap on a loaded
+        # machine); anything but a clean agreement is decided by the real entry points in subprocesses
+        try:
+            obs = self._run_inproc(case)
+        except Exception:  # noqa: BLE001 - whatever goes wrong in-process is settled by the subprocess run
+            obs = None
+        if obs is not None and self.oracle(case, obs) is None and "fail" not in obs["ref"] and "fail" not in obs["sf"]:
             return obs
         return self._run_once(case, parallel=False)
+
+    def _run_inproc(self, case):
+        import contextlib
+        import io
+        import logging
+
+        import cwltool.main
+        import streamflow.cwl.runner
+        from streamflow.log_handler import logger as sflogger
+        d = tempfile.mkdtemp(prefix="sfv-c29-", dir=SCRATCH)
+        cwd = os.getcwd()
+        try:
+            with open(os.path.join(d, "wf.cwl"), "w") as f:
+                json.dump(G.render_wf(case["wf"]), f, indent=1)
+            with open(os.path.join(d, "job.json"), "w") as f:
+                json.dump(case["job"], f)
+            with open(os.path.join(d, "sf.yml"), "w") as f:
+                f.write(SF_YML)
+            os.mkdir(os.path.join(d, "o-sf"))
+            os.mkdir(os.path.join(d, "o-ref"))
+            os.chdir(d)
+            out1, log1 = io.StringIO(), io.StringIO()
+            h = logging.StreamHandler(log1)
+            sflogger.addHandler(h)
+            try:
+                with contextlib.redirect_stdout(out1):
+                    rc1 = streamflow.cwl.runner.main(["--streamflow-file", "sf.yml", "--outdir", "o-sf", "wf.cwl", "job.json"])
+            finally:
+                sflogger.removeHandler(h)
+            out2, log2 = io.StringIO(), io.StringIO()
+            rc2 = cwltool.main.main(argsl=["--no-container", "--disable-js-validation", "--eval-timeout", "900", "--outdir",
+                                           "o-ref", "wf.cwl", "job.json"], stdout=out2, stderr=log2,
+                                    logger_handler=logging.StreamHandler(log2))
+
+            def parse(rc, out):
+                if rc != 0:
+                    return {"fail": True}
+                try:
+                    return {"ok": json.loads(out)}
+                except ValueError:
+                    return {"fail": True}
+            return {"sf": parse(rc1, out1.getvalue()), "ref": parse(rc2, out2.getvalue()), "inproc": True}
+        finally:
+            os.chdir(cwd)
+            shutil.rmtree(d, ignore_errors=True)
 
     def _run_once(self, case, parallel):
         d = tempfile.mkdtemp(prefix="sfv-c29-", dir=SCRATCH)
